@@ -121,6 +121,7 @@ def trace_stage(chk, name, module, consts, specs, fixed_owner=None, batch=40):
                 r, rej = vlib.validate_traces(module, consts, [p for _, p in cur], sub)
                 chk.states += r.distinct
                 chk.transitions += r.generated
+                chk.drift += getattr(r, "drift", 0)
                 if rej is None:
                     n_ok += len(cur)
                     n_events += r.distinct - 1
@@ -288,6 +289,12 @@ def c04(chk):
     spec_stage(chk, "crash_4ops", "FsDbCrash.tla", dict(Keys=K2, MaxOps=4, MaxCrash=1 if quick else 2, SwapRecordOrder=False, SplitCommit=False),
                exe="crash", sample=40 if quick else 1200, chunk=2,
                keep=lambda w: sum(1 for o in w if o["op"] in ("set", "del")) >= 2 and any(o["op"] in ("commit", "gc", "rollback") for o in w), **common)
+    def multikey_commit(w):
+        ks = {o["k"] for o in w if o["op"] in ("set", "del") and o["t"] == 1}
+        return len(ks) >= 2 and any(o["op"] == "commit" for o in w)
+    os.environ["VERIF_CRASH_ARGS"] = "-points=all -double=%d" % (1 if quick else 6)
+    spec_stage(chk, "crash_multikey_commit", "FsDbCrash.tla", dict(Keys=K2, MaxOps=4 if quick else 5, MaxCrash=1, SwapRecordOrder=False, SplitCommit=False),
+               exe="crash", sample=None if quick else 600, chunk=2, keep=multikey_commit, **common)
     if not quick:
         os.environ["VERIF_CRASH_ARGS"] = "-points=every:2 -double=3"
         spec_stage(chk, "crash_5ops", "FsDbCrash.tla", dict(Keys=K2, MaxOps=5, MaxCrash=1, SwapRecordOrder=False, SplitCommit=False),
@@ -325,6 +332,16 @@ def c05(chk):
         spec_stage(chk, nm, "Reopen.tla", consts, view="View", emit="Emit", invariants=("XLastWriteWins",),
                    properties=(), exe="procs", keep=has("close", "newproc"), sample=smp, chunk=40)
     l0_traces(chk, "reopen_traces", 12 if quick else 120, 300, 5, 3, "set,del,begin,commit,rollback,gc,reopen")
+    def restart_chain(b):
+        ops = [x["op"] for x in b]
+        if "newproc" not in ops:
+            return False
+        i = ops.index("newproc")
+        later = ops[i + 1:]
+        return any(o in ("set", "del") for o in later) and later and later[-1] == "open" and any(o in ("set", "del") for o in ops[:i])
+    spec_stage(chk, "procs_restart_chain", "Reopen.tla", dict(Inst={"A"}, Keys=K1, MaxSteps=9 if quick else 11, MaxProcs=2 if quick else 3, SetRule=rule),
+               view="View", emit="Emit", invariants=("XLastWriteWins",), properties=(), exe="procs", keep=restart_chain,
+               sample=250 if quick else 4000, chunk=20)
     chk.assumptions += ["processes end with all instances closed cleanly (kills are C04's quantifier)"]
 
 
@@ -958,6 +975,12 @@ def c17(chk):
         specs = [dict(seed=vlib.seed() * 7001 + i + 100 * nroots, steps=1200 if quick else 4000, keys=300 if i % 2 == 0 else 40, maxtx=2, roots=nroots,
                       obs="false", ops="set,del,gc,reopen,begin,commit,rollback") for i in range(3 if quick else 16)]
         trace_stage(chk, "walks_%droots" % nroots, "DirsTrace.tla",
+                    dict(Roots=set(range(1, nroots + 1)), Limit=100, MaxDirs=0, MaxSteps=0), specs, fixed_owner="C17")
+    # several directories full at a reopen: writes only, a reopen every few dozen calls
+    for nroots in (1, 2):
+        specs = [dict(seed=vlib.seed() * 911 + i + 50 * nroots, steps=(700 if quick else 2000) * nroots, keys=4, maxtx=1, roots=nroots,
+                      obs="false", ops="set,reopen", reopenafter=450 * nroots, uniquekeys="true") for i in range(1 if quick else 6)]
+        trace_stage(chk, "fill_and_reopen_%droots" % nroots, "DirsTrace.tla",
                     dict(Roots=set(range(1, nroots + 1)), Limit=100, MaxDirs=0, MaxSteps=0), specs, fixed_owner="C17")
     chk.assumptions += ["the directory limit is 100, the smallest value Storage.Valid allows; the design-level check uses a limit of 2",
                         "which offered directory receives a file is random in the code and is read from the recorded walk"]
